@@ -676,10 +676,12 @@ class TorchBackendProvider(BackendProvider):
             # Handle negative exponents - torch doesn't support int^negative
             if isinstance(b, torch.Tensor) and b.dtype in (torch.int8, torch.int16, torch.int32, torch.int64) and (b < 0).any():
                 base = a.float() if a.dtype in (torch.int8, torch.int16, torch.int32, torch.int64) else a
-                result = base.pow(b.abs()).float()
+                result = base.pow(b.abs())
+                if not result.is_floating_point():
+                    result = result.float()
                 return torch.where(b < 0, 1.0 / result, result)
             b_val = b.item() if isinstance(b, torch.Tensor) and b.ndim == 0 else b
-            if isinstance(b_val, (int, numpy.integer)) and b_val < 0:
+            if isinstance(b_val, (int, numpy.integer)) and b_val < 0 and not a.is_floating_point():
                 a = a.float()
             return a.pow(b)
         # For numpy arrays or scalars
